@@ -3,9 +3,15 @@ C44 — property theorems (positions).  `lspPositionToIdx`, `lspPositionFromIdx`
 `lspRangeFromRange` are the model of pkg/lsp/server.go after
 fixes/C44-crlf-position.patch; `toIdxV .orig` etc. are the unchanged code.
 The specification is ElvModel/C44/Spec.lean.
+
+Round 2: the parser is the C01 model (`C01.parse`), so the diagnostics theorems
+speak about actual parse errors; `np.Find` and the `np` matchers are the C43
+model's; `hover`'s choice of documentation is modelled (ElvModel/C44/Hover.lean).
 -/
 import ElvProofs.C44.Lemmas
 import ElvProofs.C44.Chars
+import ElvProofs.C44.Mono
+import ElvProofs.C44.Hover
 import ElvProofs.C44.Server
 open Go C44
 
@@ -77,93 +83,291 @@ theorem C44_counterexample :
 
 /-! ## The server -/
 
+/-- The one fact about the parser that `hover` needs and C01 does not state:
+every `Indexing` node has its `Head` (`(*Indexing).parse` starts by parsing a
+`Primary` and adding it).  NOT PROVED here (it needs a pass over every grammar
+function of the C01 model, like C01's well-formedness proof); it is a
+hypothesis of `C44_answers_every_request`/`C44_hover_no_panic` and is sampled
+by the differential run: the model's `hover` prints `PANIC` on a tree without
+such a head, the real server answers. -/
+def C44_parser_heads_full : Prop := ∀ isPrint : Int → Bool, ParserHeads isPrint
+
 /-- The fixed server answers every message: no handler panics, whatever the
 state, the method, the shape of `params` (absent, null, `{}`, ill-typed), the
-number of content changes, the URI or the position; a response is produced
-exactly for messages that carry an id.  Hypotheses: the completer parameter is
-a total function (`wf`: its table covers every boundary offset — a dot the
-server can compute, by `C44_toIdx_boundary`). -/
-theorem C44_answers_every_request (empty : Doc) (s : Server) (hasId : Bool) (r : Req)
-    (he : empty.wf) (hs : s.wf) (hr : r.wf) :
-    ∃ o, serve .fixed empty s hasId r = .ok o ∧ o.srv.wf ∧ (o.reply = .none ↔ hasId = false) := by
-  obtain ⟨o, ho, hw⟩ := handle_ok empty s r he hs hr
+number of content changes, the text (the real parser runs on it: it returns
+for every byte string, `C01_total_lossless`), the URI or the position; a
+response is produced exactly for messages that carry an id.  Hypotheses: the
+completer parameter is a total function (`wf`: its table covers every boundary
+offset — a dot the server can compute, by `C44_toIdx_boundary`), and — for
+`hover` only — `ParserHeads` (see `C44_parser_heads_full`). -/
+theorem C44_answers_every_request (lib : Lib) (empty : Text) (s : Server) (hasId : Bool) (r : Req)
+    (he : empty.wf) (hs : s.wf lib) (hr : r.wf) (hh : ParserHeads lib.isPrint) :
+    ∃ o, serve .fixed lib empty s hasId r = .ok o ∧ o.srv.wf lib ∧ (o.reply = .none ↔ hasId = false) := by
+  obtain ⟨o, ho, hw⟩ := handle_ok lib empty s r he hs hr hh
   refine ⟨⟨o.srv, if hasId then .res o.res else .none, o.diag⟩, ?_, hw, ?_⟩
   · simp [serve, ho, bind, Res.bind, pure]
   · cases hasId <;> simp
 
-/-- non-vacuity: a well-formed document, and a request sequence member. -/
-example : (⟨[], [], [(0, .err)]⟩ : Doc).wf := by
+/-- Every message except `hover` needs no hypothesis on the parser at all. -/
+theorem C44_answers_every_request_but_hover (lib : Lib) (empty : Text) (s : Server) (hasId : Bool) (r : Req)
+    (he : empty.wf) (hs : s.wf lib) (hr : r.wf)
+    (hnh : (∀ uri l c, r ≠ .hover uri l c) ∧ ∀ pk, r ≠ .raw "textDocument/hover" pk) :
+    ∃ o, serve .fixed lib empty s hasId r = .ok o ∧ o.srv.wf lib ∧ (o.reply = .none ↔ hasId = false) := by
+  have key : ∃ o, handle .fixed lib empty s r = .ok o ∧ o.srv.wf lib := by
+    cases r with
+    | didOpen uri d => exact didOpen_ok lib s uri d hs hr
+    | didChange uri cs => exact didChange_ok lib s uri cs hs hr
+    | hover uri l c => exact absurd rfl (hnh.1 uri l c)
+    | completion uri l c => exact completion_ok lib s uri l c hs
+    | raw m pk =>
+      simp only [handle]
+      split
+      · exact ⟨_, rfl, hs⟩
+      split
+      · rename_i h; simp at h
+      split
+      · exact ⟨_, rfl, hs⟩
+      split
+      · exact ⟨_, rfl, hs⟩
+      split
+      · exact ⟨_, rfl, hs⟩
+      split
+      · exact didOpen_ok lib s [] empty hs he
+      split
+      · exact didChange_ok lib s [] [] hs (by simp)
+      split
+      · rename_i hm; exact absurd (by rw [hm]) (hnh.2 pk)
+      · exact completion_ok lib s [] 0 0 hs
+  obtain ⟨o, ho, hw⟩ := key
+  refine ⟨⟨o.srv, if hasId then .res o.res else .none, o.diag⟩, ?_, hw, ?_⟩
+  · simp [serve, ho, bind, Res.bind, pure]
+  · cases hasId <;> simp
+
+/-- a library with nothing printable beyond ASCII, no home directories, no documentation -/
+def C44_lib0 : Lib := { isPrint := fun _ => false, home := fun _ => none, docs := [] }
+
+/-- non-vacuity: a well-formed text, and a request sequence member. -/
+example : (⟨[], [(0, .err)]⟩ : Text).wf := by
   intro b hb
   simp [boundaries, chars, charsFrom] at hb
   subst hb
   rfl
 
-example : serve .fixed ⟨[], [], [(0, .err)]⟩ Server.new true (.raw "textDocument/didChange" .absent)
-    = .ok ⟨Server.new, .res (.error (-32602)), none⟩ := by decide
+example : (match serve .fixed C44_lib0 ⟨[], [(0, .err)]⟩ Server.new true (.raw "textDocument/didChange" .absent) with
+    | .ok o => decide (o.reply = .res (.error (-32602))) && o.diag.isNone
+    | _ => false) = true := by decide
 
-/-- `didOpen` stores the document and publishes exactly its parse errors'
-ranges converted by the specification. -/
-theorem C44_diagnostics_open (empty : Doc) (s : Server) (hasId : Bool) (uri : Bytes) (d : Doc) :
-    ∃ o, serve .fixed empty s hasId (.didOpen uri d) = .ok o ∧
-      o.diag = some (uri, specRanges d) ∧ o.srv.find uri = some d := by
-  refine ⟨_, rfl, ?_, ?_⟩
+/-! ### diagnostics are the parse errors of the stored text -/
+
+/-- `didOpen` parses the text with the real parser, stores the document and
+publishes exactly its parse errors: one diagnostic per error, in order, each
+with the range OF THAT ERROR converted by the specification and that error's
+message (`specDiags d = d.errs.map (specDiag d.code)`). -/
+theorem C44_diagnostics_open (lib : Lib) (empty : Text) (s : Server) (hasId : Bool) (uri : Bytes) (t : Text) :
+    ∃ o d, serve .fixed lib empty s hasId (.didOpen uri t) = .ok o ∧
+      d.code = t.code ∧ C01.parse lib.isPrint t.code = .ok d.tree d.errs ∧
+      o.diag = some (uri, d.errs.map (specDiag t.code)) ∧ o.srv.find uri = some d := by
+  obtain ⟨d, hd, he⟩ := updateText_eq lib s uri t
+  obtain ⟨hc, _, hp⟩ := parseText_inv hd
+  refine ⟨⟨(updateDocument .fixed s uri d).1, if hasId then .res .null else .none,
+    some (updateDocument .fixed s uri d).2⟩, d, ?_, hc, by rw [← hc]; exact hp, ?_, ?_⟩
+  · simp only [serve, handle, didOpen, he, bind, Res.bind, pure]
   · show some (updateDocument .fixed s uri d).2 = _
-    rw [updateDocument_diag]
+    rw [updateDocument_diag, specDiags, hc]
   · exact updateDocument_find_self .fixed s uri d
 
 /-- `didChange` with a non-empty list of full-text changes: the document is the
-last text, and the diagnostics are its parse errors' ranges. -/
-theorem C44_diagnostics_change (empty : Doc) (s : Server) (hasId : Bool) (uri : Bytes)
-    (cs : List Doc) (d : Doc) (h : cs.getLast? = some d) :
-    ∃ o, serve .fixed empty s hasId (.didChange uri cs) = .ok o ∧
-      o.diag = some (uri, specRanges d) ∧ o.srv.find uri = some d := by
+last text, and the diagnostics are its parse errors. -/
+theorem C44_diagnostics_change (lib : Lib) (empty : Text) (s : Server) (hasId : Bool) (uri : Bytes)
+    (cs : List Text) (t : Text) (h : cs.getLast? = some t) :
+    ∃ o d, serve .fixed lib empty s hasId (.didChange uri cs) = .ok o ∧
+      d.code = t.code ∧ C01.parse lib.isPrint t.code = .ok d.tree d.errs ∧
+      o.diag = some (uri, d.errs.map (specDiag t.code)) ∧ o.srv.find uri = some d := by
+  obtain ⟨d, hd, he⟩ := updateText_eq lib s uri t
+  obtain ⟨hc, _, hp⟩ := parseText_inv hd
   refine ⟨⟨(updateDocument .fixed s uri d).1, if hasId then .res .null else .none,
-    some (updateDocument .fixed s uri d).2⟩, ?_, ?_, ?_⟩
-  · simp [serve, handle, didChange, h, bind, Res.bind, pure]
+    some (updateDocument .fixed s uri d).2⟩, d, ?_, hc, by rw [← hc]; exact hp, ?_, ?_⟩
+  · simp only [serve, handle, didChange, h, he, bind, Res.bind, pure]
   · show some (updateDocument .fixed s uri d).2 = _
-    rw [updateDocument_diag]
+    rw [updateDocument_diag, specDiags, hc]
   · exact updateDocument_find_self .fixed s uri d
 
-example : ([⟨[36, 33], [(1, 2)], []⟩] : List Doc).getLast? = some ⟨[36, 33], [(1, 2)], []⟩ := rfl
+example : ([⟨[36, 33], []⟩] : List Text).getLast? = some ⟨[36, 33], []⟩ := rfl
+
+/-- Pointwise form (the statement the seeded change
+`seeded/C44-diagnostic-range-reused` violates): the `i`-th diagnostic is made
+from the `i`-th parse error and from nothing else — its range is the conversion
+of THAT error's range, its message is THAT error's message; there are exactly
+as many diagnostics as errors. -/
+theorem C44_diagnostic_is_own_error (code : Bytes) (errs : List C01.PErr) :
+    (errs.map (specDiag code)).length = errs.length ∧
+    ∀ i : Nat, (errs.map (specDiag code))[i]? =
+      errs[i]?.map fun e => ((specPos code e.frm, specPos code e.to), e.msg) := by
+  refine ⟨List.length_map _, fun i => ?_⟩
+  rw [List.getElem?_map]
+  rfl
+
+/-- Two errors with the same start and different ends (the witness of the
+seeded change: `"\x\400"` gives `[1,2)` "should be hex digit" and `[1,5)`
+"should be below 256") get different diagnostics. -/
+example : (([⟨1, 2, false, .invalidEscapeHex⟩, ⟨1, 5, false, .invalidEscapeOctOverflow⟩] : List C01.PErr).map
+    (specDiag [34, 92, 120, 92, 52, 48, 48, 34])).map (·.1) = [(⟨0, 1⟩, ⟨0, 2⟩), (⟨0, 1⟩, ⟨0, 5⟩)] := by decide
+
+/-- The published ranges are those of actual parse errors, hence inside the
+text (`C01_error_ranges`): every diagnostic of a parsed text comes from an
+error with `from ≤ to ≤ len`, so its LSP range is well ordered (start ≤ end)
+and ends no later than the position of the end of the text. -/
+theorem C44_diagnostics_in_bounds (isPrint : Int → Bool) (code : Bytes) (tree : C01.Node)
+    (errs : List C01.PErr) (h : C01.parse isPrint code = .ok tree errs) :
+    ∀ x ∈ errs.map (specDiag code), ∃ e ∈ errs, x = specDiag code e ∧
+      e.frm ≤ e.to ∧ e.to ≤ code.length ∧
+      Pos.le x.1.1 x.1.2 ∧ Pos.le x.1.2 (specPos code code.length) := by
+  intro x hx
+  obtain ⟨e, he, rfl⟩ := List.mem_map.mp hx
+  obtain ⟨h1, h2⟩ := C01_error_ranges isPrint code tree errs h e he
+  exact ⟨e, he, rfl, h1, h2, specPos_mono code _ _ (by omega), specPos_mono code _ _ (by omega)⟩
+
+set_option maxRecDepth 100000 in
+/-- non-vacuity: the parser returns errors on `$!` … -/
+example : ∃ t errs, C01.parse (fun _ => false) [36, 33] = .ok t errs ∧ errs ≠ [] := by
+  obtain ⟨t, errs, h⟩ := C01_isOk_iff (C01.parse (fun _ => false) [36, 33]) (by decide)
+  refine ⟨t, errs, h, ?_⟩
+  have hl : (match C01.parse (fun _ => false) [36, 33] with | .ok _ e => decide (e.length > 0) | _ => false) = true := by
+    decide
+  rw [h] at hl
+  intro he; rw [he] at hl; cases hl
 
 /-- After any sequence of messages to a fresh fixed server, the last
 diagnostics on the wire for each URI are those of the document the server
 holds for it (and there are none iff it holds none): diagnostics are never
 stale. -/
-theorem C44_latest_diagnostics_current (empty : Doc) (reqs : List (Bool × Req)) (s' : Server)
-    (os : List Out) (h : serveAll .fixed empty Server.new reqs = .ok (s', os)) (uri : Bytes) :
-    lastFor uri (published os) = (s'.find uri).map specRanges := by
+theorem C44_latest_diagnostics_current (lib : Lib) (empty : Text) (reqs : List (Bool × Req)) (s' : Server)
+    (os : List Out) (h : serveAll .fixed lib empty Server.new reqs = .ok (s', os)) (uri : Bytes) :
+    lastFor uri (published os) = (s'.find uri).map specDiags := by
   have hi : Inv Server.new [] := by intro k; simp [lastFor, Server.new, Server.find, List.lookup]
-  simpa using Inv_serveAll empty reqs Server.new [] s' os h hi uri
+  simpa using Inv_serveAll lib empty reqs Server.new [] s' os h hi uri
 
-example : ∃ s' os, serveAll .fixed ⟨[], [], []⟩ Server.new
-    [(false, .didOpen [1] ⟨[36, 33], [(1, 2)], []⟩), (false, .didChange [1] [⟨[97], [], []⟩])] = .ok (s', os) :=
+/-- … and the stored documents are parsed: what `specDiags` converts are the
+errors the parser returned for the stored text. -/
+theorem C44_stored_documents_parsed (lib : Lib) (empty : Text) (s : Server) (hasId : Bool) (r : Req)
+    (o : Out) (hs : ∀ e ∈ s.docs, e.2.Parsed lib) (h : serve .fixed lib empty s hasId r = .ok o) :
+    ∀ e ∈ o.srv.docs, e.2.Parsed lib := by
+  simp only [serve, bind, Res.bind] at h
+  cases hh : handle .fixed lib empty s r with
+  | exc e => simp [hh] at h
+  | panic w => simp [hh] at h
+  | ok ho =>
+    simp only [hh, pure, Res.ok.injEq] at h
+    subst h
+    rcases handle_shape lib empty s r ho hh with ⟨h1, _⟩ | ⟨uri, t, d, hd, h1, _⟩
+    · simpa [h1] using hs
+    · intro e he
+      simp only [h1, updateDocument] at he
+      rcases List.mem_cons.mp he with rfl | he
+      · exact (parseText_inv hd).2.2
+      · exact hs e (List.mem_filter.mp he).1
+
+example : ∃ s' os, serveAll .fixed C44_lib0 ⟨[], []⟩ Server.new
+    [(false, .raw "initialized" .obj), (true, .hover [1] 0 0)] = .ok (s', os) :=
   ⟨_, _, rfl⟩
+
+/-! ### hover: `np.Find` on parsed trees, no panic, which documentation -/
+
+/-- `np.Find(root, pos)` on the tree the parser returns: whenever the position
+is inside the root's range (or the root is a leaf) the `descend:` loop reaches
+a leaf — it never falls out with `nil` — because every node's children tile its
+range (`C01_wf_nodes`); the path goes from a leaf (no children) up to the root,
+every node on it is a node of the tree, hence has its range inside the text,
+and every node below the root contains the position. -/
+theorem C44_find_on_parsed_tree (isPrint : Int → Bool) (src : Bytes) (tree : C01.Node)
+    (errs : List C01.PErr) (h : C01.parse isPrint src = .ok tree errs) (pos : Int)
+    (hin : tree.children = [] ∨ ((tree.frm : Int) ≤ pos ∧ pos < (tree.to : Int))) :
+    ∃ path pre leaf, C43.findN pos false 0 tree = some path ∧
+      path = pre ++ [(tree, 0)] ∧ path.head? = some leaf ∧ leaf.1.children = [] ∧
+      (∀ x ∈ pre, (x.1.frm : Int) ≤ pos ∧ pos < (x.1.to : Int)) ∧
+      (∀ x ∈ path, C01_Desc tree x.1 ∧ x.1.frm ≤ x.1.to ∧ x.1.to ≤ src.length) := by
+  have hok : AllOk src tree := (C01_lossless_partial isPrint src tree errs h).1
+  obtain ⟨path, hp⟩ := findN_some src pos tree 0 hok hin
+  obtain ⟨pre, hpre, hall, leaf, hhead, hleaf⟩ := findN_path pos tree 0 path hp
+  refine ⟨path, pre, leaf, hp, hpre, hhead, hleaf, hall, ?_⟩
+  intro x hx
+  have hd := C43.findN_desc pos false tree 0 path hp x hx
+  have hn := hok _ hd
+  exact ⟨hd, hn.1, hn.2.1⟩
+
+set_option maxRecDepth 100000 in
+/-- non-vacuity: in `$a` offset 1 is inside the root. -/
+example : (match C01.parse (fun _ => false) [36, 97] with
+    | .ok t _ => decide ((t.frm : Int) ≤ 1 ∧ (1 : Int) < t.to) | _ => false) = true := by decide
+
+/-- `hover`'s choice of documentation returns (no nil dereference in
+`np.Find`, the matchers or `PurelyEvalPartialCompound`) for every parsed text
+and every offset.  Hypothesis: `ParserHeads` (see `C44_parser_heads_full`). -/
+theorem C44_hover_no_panic (lib : Lib) (src : Bytes) (tree : C01.Node) (errs : List C01.PErr)
+    (h : C01.parse lib.isPrint src = .ok tree errs) (hh : ParserHeads lib.isPrint) (pos : Int) :
+    ∃ c, hoverContent lib tree pos = .ok c :=
+  hoverContent_ok lib tree pos (hh src tree errs h)
+
+/-- Which documentation is shown for which node: if `hover` shows a text, the
+leaf `np.Find` found at the position is a `Primary`, and the text is
+* the documentation of `$name`, the leaf being the variable use `$name`, or
+* the documentation of the command `v`, where the leaf is a piece of the head
+  word (`form.Head`, child 0 of the form) of a command and `v` is the static
+  value of that word up to the end of the piece under the cursor. -/
+theorem C44_hover_shows_symbol_at_position (lib : Lib) (tree : C01.Node) (pos : Int) (md : String)
+    (h : hoverContent lib tree pos = .ok (some md)) :
+    ∃ leaf rest, npFind tree pos = leaf :: rest ∧ leaf.1.kind = .primary ∧
+      ((leaf.1.ptype = Gen.C01Chars.Variable ∧ docSource lib.docs (36 :: leaf.1.value) = some md) ∨
+       (∃ inn cn form rest' v, rest = inn :: (cn, 0) :: form :: rest' ∧
+          inn.1.kind = .indexing ∧ cn.kind = .compound ∧ form.1.kind = .form ∧
+          C43.purelyEvalPartialCompound (nilEvalerEnv lib) cn (inn.1.to : Int) = .ok (some v) ∧
+          docSource lib.docs v = some md)) :=
+  hoverContent_some lib tree pos md h
+
+/-- Outside every leaf (`np.Find` returns nil: e.g. the end of the text, or a
+position after the parsed part) nothing is shown. -/
+theorem C44_hover_nothing_outside (lib : Lib) (tree : C01.Node) (pos : Int)
+    (h : C43.findN pos false 0 tree = none) : hoverContent lib tree pos = .ok none := by
+  simp [hoverContent, npFind, h, hoverVariable, hoverCommand, C43.matchKind, C43.matchSimpleExpr]
+
+/-- a documentation table with `echo` and `$paths` -/
+def C44_docs1 : DocTable := [([], ⟨[(strBytes "echo", "doc-echo")], [(strBytes "$paths", "doc-paths")]⟩)]
+
+set_option maxRecDepth 100000 in
+/-- non-vacuity: hovering over `echo` in `echo $paths` shows the command's
+documentation, over `$paths` the variable's, at the end of the text nothing. -/
+example : (match C01.parse (fun _ => false) (strBytes "echo $paths") with
+    | .ok t _ =>
+      let lib : Lib := { C44_lib0 with docs := C44_docs1 }
+      decide (hoverContent lib t 2 = .ok (some "doc-echo") ∧ hoverContent lib t 7 = .ok (some "doc-paths") ∧
+        hoverContent lib t 11 = .ok none)
+    | _ => false) = true := by decide +kernel
 
 /-! ### the unchanged tree -/
 
 /-- Unchanged tree: a message for a known method without `params` kills the server. -/
 theorem C44_counterexample_no_params :
-    (serve .orig ⟨[], [], []⟩ Server.new false (.raw "initialized" .absent)).isPanic = true := by decide
+    (serve .orig C44_lib0 ⟨[], []⟩ Server.new false (.raw "initialized" .absent)).isPanic = true := by decide
 
 /-- Unchanged tree: `didChange` with an empty change list kills the server. -/
 theorem C44_counterexample_empty_changes :
-    (serve .orig ⟨[], [], []⟩ Server.new false (.didChange [1] [])).isPanic = true := by decide
+    (serve .orig C44_lib0 ⟨[], []⟩ Server.new false (.didChange [1] [])).isPanic = true := by decide
 
 /-- Unchanged tree: of several full-text changes in one `didChange` the FIRST is kept. -/
 theorem C44_counterexample_multi_change :
-    ∃ o, serve .orig ⟨[], [], []⟩ Server.new false (.didChange [1] [⟨[97], [], []⟩, ⟨[98], [], []⟩]) = .ok o ∧
-      o.srv.find [1] ≠ some ⟨[98], [], []⟩ := ⟨_, rfl, by decide⟩
+    ∃ o, serve .orig C44_lib0 ⟨[], []⟩ Server.new false (.didChange [1] [⟨[97], []⟩, ⟨[98], []⟩]) = .ok o ∧
+      (o.srv.find [1]).map (·.code) ≠ some [98] := ⟨_, rfl, by decide +kernel⟩
 
 /-- Unchanged tree: each `updateDocument` publishes from its own goroutine, so
 the notifications of a run can reach the wire in any order; in the reversed
-order of two changes the client is left with the diagnostics of the old text. -/
+order of two changes the client is left with the diagnostics of the old text
+(`$!` has a parse error, `a` has none). -/
 theorem C44_counterexample_diagnostics_order :
-    ∃ s' os wire, serveAll .orig ⟨[], [], []⟩ Server.new
-        [(false, .didChange [1] [⟨[36, 33], [(1, 2)], []⟩]), (false, .didChange [1] [⟨[97], [], []⟩])] = .ok (s', os) ∧
+    ∃ s' os wire, serveAll .orig C44_lib0 ⟨[], []⟩ Server.new
+        [(false, .didChange [1] [⟨[36, 33], []⟩]), (false, .didChange [1] [⟨[97], []⟩])] = .ok (s', os) ∧
       wire.Perm (published os) ∧
-      lastFor [1] wire ≠ (s'.find [1]).map fun d => d.errs.map fun e => rangeV .orig d.code e.1 e.2 :=
-  ⟨_, _, [([1], []), ([1], [(⟨0, 1⟩, ⟨0, 2⟩)])], rfl, by decide, by decide⟩
+      lastFor [1] wire ≠ (s'.find [1]).map fun d => d.errs.map fun e => (rangeV .orig d.code e.frm e.to, e.msg) :=
+  ⟨_, _, [([1], []), ([1], [((⟨0, 1⟩, ⟨0, 2⟩), .shouldBeVariableName)])], rfl, by decide +kernel, by decide +kernel⟩
 
 /-! ## The property, assembled -/
 
@@ -174,11 +378,12 @@ def C44_full : Prop :=
     lspPositionToIdx s (lspPositionFromIdx s i).line (lspPositionFromIdx s i).char = i) ∧
   (∀ (s : Bytes) (line char : Int), lspPositionToIdx s line char ∈ boundaries s ∧
     lspPositionToIdx s line char ≤ s.length) ∧
-  (∀ (empty : Doc) (s : Server) (hasId : Bool) (r : Req), empty.wf → s.wf → r.wf →
-    ∃ o, serve .fixed empty s hasId r = .ok o ∧ o.srv.wf ∧ (o.reply = .none ↔ hasId = false)) ∧
-  (∀ (empty : Doc) (reqs : List (Bool × Req)) (s' : Server) (os : List Out),
-    serveAll .fixed empty Server.new reqs = .ok (s', os) →
-    ∀ uri, lastFor uri (published os) = (s'.find uri).map specRanges)
+  (∀ (lib : Lib) (empty : Text) (s : Server) (hasId : Bool) (r : Req), empty.wf → s.wf lib → r.wf →
+    ParserHeads lib.isPrint →
+    ∃ o, serve .fixed lib empty s hasId r = .ok o ∧ o.srv.wf lib ∧ (o.reply = .none ↔ hasId = false)) ∧
+  (∀ (lib : Lib) (empty : Text) (reqs : List (Bool × Req)) (s' : Server) (os : List Out),
+    serveAll .fixed lib empty Server.new reqs = .ok (s', os) →
+    ∀ uri, lastFor uri (published os) = (s'.find uri).map specDiags)
 
 theorem C44_full_holds : C44_full :=
   ⟨C44_fromIdx_eq_spec, C44_roundtrip,
